@@ -15,9 +15,9 @@ from vlib.runner import HERE, Outcome, hyp_search
 
 ID = "C12"
 LEVEL = "exploration"
-RULE = ("Each shard fixes a pool of 17 documents (generated ones that deliberately share object numbers, the resource "
+RULE = ("Each shard fixes a pool of 19 documents (generated ones that deliberately share object numbers, the resource "
         "name /F1, BaseFont names, base encodings differing only in /Differences, predefined CMap names with different "
-        "ToUnicode maps, multi-page members, a grid of equidistant labels, two Type0 fonts sharing one descendant, Type1 fonts with different built-in encodings, a /Font dictionary mixing indirect and direct fonts, two documents encrypted through the same crypt filter name with different keys, a document whose xref table carries a wrong offset and marks an object free whose body is still in the file, a document whose pages leave the graphics-state stack unbalanced (unclosed q with a non-default colour space, stray Q on the next page), a document whose pages share one zero-length content stream and paint an empty form twice, a document with a page whose /Resources are empty or missing while its content names what the previous page defines; plus repository samples incl. an AES-encrypted one and CJK ones). "
+        "ToUnicode maps, multi-page members, a grid of equidistant labels, two Type0 fonts sharing one descendant, Type1 fonts with different built-in encodings, a /Font dictionary mixing indirect and direct fonts, two documents encrypted through the same crypt filter name with different keys, a document whose xref table carries a wrong offset and marks an object free whose body is still in the file, a document whose pages leave the graphics-state stack unbalanced (unclosed q with a non-default colour space, stray Q on the next page), a document whose pages share one zero-length content stream and paint an empty form twice, a document with a page whose /Resources are empty or missing while its content names what the previous page defines, a document with strings printed over each other (tied lines in one box), a document with a form that paints itself and two forms that paint each other; plus repository samples incl. an AES-encrypted one and CJK ones). "
         "Hypothesis draws call histories (model-based op lists) run in one long-lived process: extract_text, "
         "extract_pages to completion, open a page iterator, advance any open iterator (interleaving documents), extract "
         "a single page by page_numbers, extract_text_to_fp(xml), rendering through one PDFResourceManager(caching=False) shared by the whole history; each with caching on/off and LAParams default or "
@@ -146,6 +146,26 @@ def gen_doc(kind, variant):
         pages = [ops + b" q q BT /F1 12 Tf 50 700 Td (Open %d) Tj ET" % variant,
                  b"Q 0.5 sc 0.25 SC BT /F1 12 Tf 50 650 Td (Stray) Tj ET 10 10 100 50 re B",
                  b"Q Q q 0.75 sc BT /F1 12 Tf 50 600 Td (Third) Tj ET"]
+    elif kind == "overprint":
+        # several strings printed over each other on one baseline: lines with identical top edges inside one text box
+        # (their order is decided by tie-breaking, which must not depend on memory addresses or hashing)
+        objs[10] = W.simple_font("OverFont")
+        strs = [b"AAAAAAAAAA", b"BBBBBBBBBB", b"CCCCCCCCCC", b"DDDDDDDDDD", b"EEEEEEEEEE", b"FFFFFFFFFF"][:4 + variant % 3]
+        line = b" ".join(b"BT /F1 10 Tf 50 700 Td (%s) Tj ET" % t for t in strs)
+        line2 = b" ".join(b"BT /F1 10 Tf %d 600 Td (%s) Tj ET" % (50 + 3 * i, t) for i, t in enumerate(reversed(strs)))
+        pages = [line + b" " + line2, line2]
+    elif kind == "recursiveform":
+        # a form that paints itself, and two forms that paint each other: the invocation that would recurse is skipped,
+        # with object caching on and off alike
+        objs[10] = W.simple_font("RecFont")
+        res = {b"Font": {b"F1": W.R(10)}, b"XObject": {b"Fa": W.R(44), b"Fb": W.R(45), b"Fc": W.R(46)}}
+        objs[44] = W.Stream(W.D(Type=W.N("XObject"), Subtype=W.N("Form"), BBox=[0, 0, 500, 500], Resources=res),
+                            b"BT /F1 9 Tf 10 400 Td (self %d) Tj ET /Fa Do" % variant)
+        objs[45] = W.Stream(W.D(Type=W.N("XObject"), Subtype=W.N("Form"), BBox=[0, 0, 500, 500], Resources=res),
+                            b"BT /F1 9 Tf 10 300 Td (ping) Tj ET /Fc Do")
+        objs[46] = W.Stream(W.D(Type=W.N("XObject"), Subtype=W.N("Form"), BBox=[0, 0, 500, 500], Resources=res),
+                            b"BT /F1 9 Tf 10 200 Td (pong) Tj ET /Fb Do")
+        pages = [b"/Fa Do BT /F1 12 Tf 50 700 Td (after self) Tj ET", b"/Fb Do BT /F1 12 Tf 50 650 Td (after pair) Tj ET"]
     elif kind == "noresources":
         # page two has empty /Resources (variant 1: none at all) but its content names a font and a form that page one
         # defines: whatever a page does with undefined names, it does not depend on the pages rendered before it
@@ -181,6 +201,9 @@ def gen_doc(kind, variant):
         kids.append(W.R(21 + 2 * i))
     objs[1] = W.D(Type=W.N("Catalog"), Pages=W.R(2))
     objs[2] = W.D(Type=W.N("Pages"), Kids=kids, Count=len(kids))
+    if kind == "recursiveform":
+        for i in range(len(pages)):
+            objs[21 + 2 * i][b"Resources"] = res
     if kind == "noresources":
         for i in (0, 2):
             objs[21 + 2 * i][b"Resources"] = {b"Font": {b"F1": W.R(10)}, b"XObject": {b"Fm0": W.R(43)}}
@@ -252,6 +275,8 @@ def make_pool(rnd):
     pool.append(["gen", "unbalanced", rnd.randrange(3)])
     pool.append(["gen", "sharedempty", rnd.randrange(2)])
     pool.append(["gen", "noresources", rnd.randrange(2)])
+    pool.append(["gen", "overprint", rnd.randrange(3)])
+    pool.append(["gen", "recursiveform", rnd.randrange(2)])
     cv = rnd.sample(range(4), 2)
     pool.append(["gen", "crypt", cv[0]])
     pool.append(["gen", "crypt", cv[1]])
